@@ -2406,7 +2406,7 @@ class XonshParser(Parser):
 
     @memoize
     def proc_cmd(self) -> Any | None:
-        # proc_cmd: sub_procs | '@(' ~ (bare_genexp | expressions) ')' | '@$(' ~ proc_cmds ')' | env_atom | !STRING help_atom | search_path | proc_macro_start ~ ((cmd_group | any_cmd))* | cmd_group | cmd_name
+        # proc_cmd: sub_procs | '@(' ~ (bare_genexp | expressions) ')' | '@$(' ~ proc_cmds ')' | env_atom | search_path | proc_macro_start ~ ((cmd_group | any_cmd))* | cmd_group | cmd_name
         mark = self._mark()
         _lnum, _col = self._tokenizer.peek().start
         if sub_procs := self.sub_procs():
@@ -2426,9 +2426,6 @@ class XonshParser(Parser):
             return None
         if env_atom := self.env_atom():
             return env_atom
-        self._reset(mark)
-        if (self.negative_lookahead(self.token, "STRING")) and (help_atom := self.help_atom()):
-            return help_atom
         self._reset(mark)
         if search_path := self.search_path():
             return search_path
